@@ -115,6 +115,7 @@ class SimProc:
         self.main_module = None
         self.next_ident = 0
         self.tokens = {}
+        self.stopped_pending = []
         self.started_at = sim.now
         self.exited_at = None
 
@@ -830,6 +831,11 @@ class Sim:
         if p.state == 'stopped':
             p.state = 'running'
             self.ev('sigcont', p.name)
+            pend, p.stopped_pending = p.stopped_pending, []
+            from .shims import sim_kill
+            for sig in pend:
+                if p.alive:
+                    sim_kill(p.pid, sig)
 
 
 def _name_key(t):
